@@ -199,7 +199,7 @@ type C05Block struct {
 	Att    string   `json:"att,omitempty"`
 	Xattrs string   `json:"xattrs,omitempty"`
 	Flags  []string `json:"flags,omitempty"`
-	Sep    string   `json:"sep,omitempty"` // separator used inside flags=( )
+	Sep    string   `json:"sep,omitempty"`  // separator used inside flags=( )
 	Glue   bool     `json:"glue,omitempty"` // no blank between flags=(...) and the brace
 }
 
